@@ -2097,6 +2097,252 @@ theorem runSteps_total (c : Cfg α) (tf dtminS : α) :
     · exact ⟨_, rfl⟩
 
 
+/-! ### C01 for every row of every run: the solute balance is an invariant of the recorded histories -/
+
+/-- the solute balance read off ONE recorded row: for every element that is not clamped and while the recorded total
+precipitate fraction is below 1, initial content = matrix composition × (1 − total fraction) + precipitate content -/
+def RowBal (c : Cfg α) (y : Slice α) : Prop :=
+  ∀ e, e < c.x0.length → rowVolFrac y < 1 →
+    ¬ (c.x0.getD e 0 - rowFconc y e) / (1 - rowVolFrac y) < 0 →
+    c.x0.getD e 0 = y.comp.getD e 0 * (1 - rowVolFrac y) + rowFconc y e
+
+theorem depEval_rowBal (c : Cfg α) (s : St α) (t : α) (x : List (List α)) (a : EvalAns α) (y : Slice α)
+    (hs : s.ph.length = c.phases.length) (hx : x.length = c.phases.length) (ha : a.ph.length = c.phases.length) :
+    RowBal c (depEval c s t x a y).2 :=
+  fun e he hsat hpos => depEval_conserves_row c s t x a y hs hx ha e he hsat hpos
+
+/-- the row appended by an accepted step of either iterator balances -/
+theorem eulerStep_rowBal (c : Cfg α) (s : St α) (tf dtminS dtmaxS : α) (aPost : EvalAns α) (upd : List (UpdAns α))
+    (o : StepOut α) (hs : StReady c s) (ha : AnsShaped c s.ph.length aPost)
+    (h : eulerStep c s tf dtminS dtmaxS aPost upd = some o) : RowBal c (o.st.cur c.nElem) :=
+  fun e he hsat hpos => eulerStep_conserves_row c s tf dtminS dtmaxS aPost upd o h hs.1.symm (by rw [hs.2.1, hs.1])
+    (by rw [ha.1, hs.1]) e he hsat hpos
+
+theorem rk4Step_rowBal (c : Cfg α) (s : St α) (tf dtminS dtmaxS : α) (a2 a3 a4 aPost : EvalAns α) (upd : List (UpdAns α))
+    (o : StepOut α) (hs : StReady c s) (h2 : AnsShaped c s.ph.length a2) (h3 : AnsShaped c s.ph.length a3)
+    (h4 : AnsShaped c s.ph.length a4) (ha : AnsShaped c s.ph.length aPost)
+    (h : rk4Step c s tf dtminS dtmaxS a2 a3 a4 aPost upd = some o) : RowBal c (o.st.cur c.nElem) := by
+  have hc := hs.1
+  have hcur := hs.2.1
+  have hg : AllGood s.ph := fun ps hps => (hs.2.2 ps hps).1
+  set dt := acceptedDt c s tf dtminS dtmaxS with hdt
+  set cur := s.cur c.nElem with hcu
+  have k1 := stageOK_process c s s _ hg (stageOK_stageX c s s (entryX c s) cur (dt / 2) hg hcur (stageOK_entry c s hg))
+  obtain ⟨e2ok, e2y⟩ := stageOK_eval c s s _ (cur.time + dt / 2) a2 cur hc h2 k1
+  have k2 := stageOK_process c s _ _ hg (stageOK_stageX c s _ _ _ (dt / 2) hg e2y e2ok)
+  obtain ⟨e3ok, e3y⟩ := stageOK_eval c s _ _ (cur.time + dt / 2) a3 _ hc h3 k2
+  have k3 := stageOK_process c s _ _ hg (stageOK_stageX c s _ _ _ dt hg e3y e3ok)
+  obtain ⟨e4ok, e4y⟩ := stageOK_eval c s _ _ (cur.time + dt) a4 _ hc h4 k3
+  have kN := stageOK_process c s _ _ hg (stageOK_stageX c s _ _ _ dt hg e4y e4ok)
+  have kN' : StageOK s (rk4Evals c s dt a2 a3 a4).s4.1
+      (processAll c (rk4Evals c s dt a2 a3 a4).s4.1 (rk4Evals c s dt a2 a3 a4).xNew) := kN
+  have hrow : o.st.cur c.nElem = (rk4Post c s tf dtminS dtmaxS a2 a3 a4 aPost).2 := by
+    simp only [rk4Step] at h
+    split at h
+    · simp at h
+    · next sD hD =>
+      simp only [Option.some.injEq] at h; subst h
+      have hh := finishStep_hist _ _ _ _ _ _ hD
+      simp only [St.cur, hh, List.headD_cons]
+  rw [hrow]
+  exact depEval_rowBal c _ _ _ aPost _ (by rw [kN'.1]; exact hc.symm) (by rw [kN'.2.2.2.1]; exact hc.symm)
+    (by rw [ha.1]; exact hc.symm)
+
+theorem anyStep_rowBal (c : Cfg α) (s : St α) (tf dtminS dtmaxS : α) (au : StepAns α) (o : StepOut α) (hs : StReady c s)
+    (hsh : StepShaped c s.ph.length au) (h : anyStep c s tf dtminS dtmaxS au = some o) : RowBal c (o.st.cur c.nElem) := by
+  cases au with
+  | euler a u => exact eulerStep_rowBal c s tf dtminS dtmaxS a u o hs hsh.1 h
+  | rk4 a2 a3 a4 a u =>
+    exact rk4Step_rowBal c s tf dtminS dtmaxS a2 a3 a4 a u o hs hsh.1 hsh.2.1 hsh.2.2.1 hsh.2.2.2.1 h
+
+/-- **C01 over whole runs**: if every recorded row balances before a run, every recorded row balances after it — any number
+of passes, either iterator in any pass, every stream of well-shaped backend answers (failed growth requests included) -/
+theorem runSteps_rowBal (c : Cfg α) (tf dtminS : α) :
+    ∀ (steps : List (StepAns α)) (s s' : St α) (m m' : α), StReady c s → (∀ au ∈ steps, StepShaped c s.ph.length au) →
+      (∀ y ∈ s.hist, RowBal c y) → runSteps c tf dtminS s m steps = some (s', m') → ∀ y ∈ s'.hist, RowBal c y
+  | [], s, s', m, m', _, _, hb, h => by simp [runSteps] at h; rw [← h.1]; exact hb
+  | au :: rest, s, s', m, m', hs, hsh, hb, h => by
+    simp only [runSteps] at h
+    split at h
+    · split at h
+      · simp at h
+      · next o ho =>
+        obtain ⟨hr, hl⟩ := anyStep_ready c s tf dtminS m au o hs (hsh au (by simp)) ho
+        have hrow := anyStep_rowBal c s tf dtminS m au o hs (hsh au (by simp)) ho
+        obtain ⟨y, hy, _⟩ := anyStep_spec c s tf dtminS m au o ho
+        refine runSteps_rowBal c tf dtminS rest o.st s' _ m' hr (by intro au' h'; rw [hl]; exact hsh au' (by simp [h'])) ?_ h
+        intro y' hy'
+        rw [hy] at hy'
+        rcases List.mem_cons.mp hy' with h1 | h1
+        · subst h1
+          have : o.st.cur c.nElem = y' := by simp [St.cur, hy]
+          rw [← this]; exact hrow
+        · exact hb y' h1
+    · simp only [Option.some.injEq, Prod.mk.injEq] at h; rw [← h.1]; exact hb
+
+
+/-! ### `setup()` row and whole histories from construction -/
+
+/-- the `(state, row)` pair of `setupState` after the lookup / equilibrium-composition branch -/
+def setupPre (c : Cfg α) (s : St α) (a : EvalAns α) (eqMulti : List (Option (List α × List α))) : St α × Slice α :=
+  let rest := s.hist.tail
+  let row1 : Slice α := { s.cur c.nElem with comp := c.x0, temp := a.T }
+  let ph0 := s.ph.map (fun ps => { ps with grid := Grid.reset ps.grid true })
+  let s0 : St α := { s with ph := ph0, hist := row1 :: rest }
+  if c.binary then
+    let s1 := createLookup row1.temp a.table s0
+    (s1, { row1 with ph := row1.ph.mapIdx (fun p yp => { yp with xEqA := s1.lookEqA.getD p [], xEqB := s1.lookEqB.getD p [] }) })
+  else
+    ({ s0 with ph := ph0.map (fun ps => { ps with xaT := List.replicate c.nElem (zerosL (ps.grid.bins + 1)),
+                                                    xbT := List.replicate c.nElem (zerosL (ps.grid.bins + 1)) }) },
+     { row1 with ph := row1.ph.mapIdx (fun p yp => match eqMulti.getD p none with
+                                                    | some (ea, eb) => { yp with xEqA := ea, xEqB := eb }
+                                                    | none => yp) })
+
+theorem setupState_eq (c : Cfg α) (s : St α) (a : EvalAns α) (eq : List (Option (List α × List α))) :
+    setupState c s a eq =
+      let sr := setupPre c s a eq
+      let s1 : St α := { sr.1 with hist := sr.2 :: s.hist.tail }
+      let y1 := nucleation c s1 (s.cur c.nElem).time (s1.ph.map (fun ps => ps.grid.psd)) a
+                  { s.cur c.nElem with comp := c.x0, temp := a.T }
+      let s2 : St α := { s1 with ph := s1.ph.map (fun ps => { ps with growth := zerosL (ps.grid.bins + 1) }) }
+      { (growthRate c s2 a y1).1 with hist := (growthRate c s2 a y1).2 :: s.hist.tail } := rfl
+
+theorem setupPre_facts (c : Cfg α) (s : St α) (a : EvalAns α) (eq : List (Option (List α × List α)))
+    (Q : Grid.State α → Prop) (hres : ∀ g, Q g → Q (Grid.reset g true)) (hq : AllQ Q s.ph) :
+    (setupPre c s a eq).1.ph.length = s.ph.length ∧ AllQ Q (setupPre c s a eq).1.ph := by
+  have h0 : AllQ Q (s.ph.map (fun ps => { ps with grid := Grid.reset ps.grid true })) := by
+    intro ps hps
+    rw [List.mem_map] at hps
+    obtain ⟨q, hq', rfl⟩ := hps
+    exact hres _ (hq q hq')
+  unfold setupPre
+  simp only
+  split
+  · refine ⟨by rw [createLookup_length]; simp, createLookup_allQ Q _ _ _ h0⟩
+  · refine ⟨by simp, ?_⟩
+    intro ps hps
+    simp only [List.mem_map] at hps
+    obtain ⟨q, ⟨r, hr, rfl⟩, rfl⟩ := hps
+    exact hres _ (hq r hr)
+
+/-- `setup()` keeps the state ready for the step theorems (grids reset to the original, one record per phase) -/
+theorem setupState_ready (c : Cfg α) (s : St α) (a : EvalAns α) (eq : List (Option (List α × List α)))
+    (hs : StReady c s) (ha : AnsShaped c s.ph.length a) :
+    StReady c (setupState c s a eq) ∧ (setupState c s a eq).ph.length = s.ph.length := by
+  obtain ⟨hc, hcur, hq⟩ := hs
+  obtain ⟨hl, hQ⟩ := setupPre_facts c s a eq GridReady (gridReady_closed c).reset hq
+  rw [setupState_eq]
+  simp only
+  set sr := setupPre c s a eq with hsr
+  set s2 : St α := { ph := sr.1.ph.map (fun ps => { ps with growth := zerosL (ps.grid.bins + 1) }), lookT := sr.1.lookT,
+    lookEqA := sr.1.lookEqA, lookEqB := sr.1.lookEqB, hist := sr.2 :: s.hist.tail } with hs2
+  have hl2 : s2.ph.length = s.ph.length := by simp [hs2, hl]
+  have hQ2 : AllQ GridReady s2.ph := by
+    intro ps hps
+    simp only [hs2, List.mem_map] at hps
+    obtain ⟨q, hq', rfl⟩ := hps
+    exact hQ q hq'
+  set y1 := nucleation c { sr.1 with hist := sr.2 :: s.hist.tail } (s.cur c.nElem).time
+    (sr.1.ph.map (fun ps => ps.grid.psd)) a { s.cur c.nElem with comp := c.x0, temp := a.T } with hy1
+  have hy1l : y1.ph.length = s2.ph.length := by
+    simp [hy1, nucleation, zip3_length, dtPhases, hc, ha.1, hl, hl2]
+  have hgl := growthRate_length c s2 a y1 (by rw [hl2]; exact hc) (by rw [hl2]; exact ha) hy1l
+  have hrow : (growthRate c s2 a y1).2.ph.length = s2.ph.length := by
+    unfold growthRate
+    split
+    · unfold growthBinary; simp only [List.length_mapIdx]; exact hy1l
+    · unfold growthMulti; simp only [List.length_map, zip3_length]; rw [ha.1, hy1l, hl2]; simp
+  refine ⟨⟨?_, ?_, growthRate_allQ GridReady c s2 a y1 hQ2⟩, by rw [hgl, hl2]⟩
+  · show c.phases.length = (growthRate c s2 a y1).1.ph.length
+    rw [hgl, hl2]; exact hc
+  · show (St.cur c.nElem { (growthRate c s2 a y1).1 with hist := (growthRate c s2 a y1).2 :: s.hist.tail }).ph.length
+        = (growthRate c s2 a y1).1.ph.length
+    simp only [St.cur, List.headD_cons]
+    rw [hrow, hgl]
+
+/-- the row `setup()` records balances when the precipitate fields of the row it starts from are empty (a model that has
+not run, or has been reset): composition = initial composition, fraction and content 0 -/
+theorem setupState_rowBal (c : Cfg α) (s : St α) (a : EvalAns α) (eq : List (Option (List α × List α)))
+    (hs : StReady c s) (ha : AnsShaped c s.ph.length a)
+    (hz : ∀ yp ∈ (s.cur c.nElem).ph, yp.volFrac = 0 ∧ ∀ e, yp.fconc.getD e 0 = 0) :
+    RowBal c ((setupState c s a eq).cur c.nElem) := by
+  obtain ⟨hc, hcur, hq⟩ := hs
+  obtain ⟨hl, _⟩ := setupPre_facts c s a eq GridReady (gridReady_closed c).reset hq
+  rw [setupState_eq]
+  simp only [St.cur, List.headD_cons]
+  set sr := setupPre c s a eq with hsr
+  set s2 : St α := { ph := sr.1.ph.map (fun ps => { ps with growth := zerosL (ps.grid.bins + 1) }), lookT := sr.1.lookT,
+    lookEqA := sr.1.lookEqA, lookEqB := sr.1.lookEqB, hist := sr.2 :: s.hist.tail } with hs2
+  have hl2 : s2.ph.length = s.ph.length := by simp [hs2, hl]
+  set y0 : Slice α := { s.cur c.nElem with comp := c.x0, temp := a.T } with hy0
+  have hcur' : (List.headD s.hist (Slice.zero c.nElem)).ph.length = s.ph.length := hcur
+  have hy0l : y0.ph.length = s.ph.length := hcur
+  set y1 := nucleation c { sr.1 with hist := sr.2 :: s.hist.tail } (s.cur c.nElem).time
+    (sr.1.ph.map (fun ps => ps.grid.psd)) a y0 with hy1
+  have hy1l : y1.ph.length = s.ph.length := by
+    simp [hy1, nucleation, zip3_length, dtPhases, hc, ha.1, hl]
+  have hb1 : y1.ph.map balFields = y0.ph.map balFields :=
+    nucleation_bal c _ _ _ a y0 (by rw [hy0l]; exact hc) (by rw [hy0l]; exact ha.1) (by rw [hy0l]; exact hl)
+      (by rw [hy0l]; simp [hl])
+  have hb2 : (growthRate c s2 a y1).2.ph.map balFields = y0.ph.map balFields := by
+    rw [growthRate_bal c s2 a y1 (by rw [hy1l]; exact ha.1) (by rw [hy1l]; exact hl2)]; exact hb1
+  have hcomp : (growthRate c s2 a y1).2.comp = c.x0 := by
+    rw [(growthRate_time c s2 a y1).2.2]; rfl
+  have hzero : ∀ yp ∈ (growthRate c s2 a y1).2.ph, yp.volFrac = 0 ∧ ∀ e, yp.fconc.getD e 0 = 0 := by
+    intro yp hyp
+    have : balFields yp ∈ y0.ph.map balFields := by rw [← hb2]; exact List.mem_map_of_mem hyp
+    rw [List.mem_map] at this
+    obtain ⟨q, hq', hqe⟩ := this
+    have hq0 := hz q hq'
+    simp only [balFields, Prod.mk.injEq] at hqe
+    exact ⟨by rw [← hqe.1]; exact hq0.1, fun e => by rw [← hqe.2]; exact hq0.2 e⟩
+  have hv : rowVolFrac (growthRate c s2 a y1).2 = 0 := by
+    unfold rowVolFrac
+    apply List.sum_eq_zero
+    intro v hv'
+    rw [List.mem_map] at hv'
+    obtain ⟨yp, hyp, rfl⟩ := hv'
+    exact (hzero yp hyp).1
+  have hf : ∀ e, rowFconc (growthRate c s2 a y1).2 e = 0 := by
+    intro e
+    unfold rowFconc
+    apply List.sum_eq_zero
+    intro v hv'
+    rw [List.mem_map] at hv'
+    obtain ⟨yp, hyp, rfl⟩ := hv'
+    exact (hzero yp hyp).2 e
+  intro e _ _ _
+  rw [hv, hf e, hcomp]; ring
+
+/-- **C01 for every history from construction**: `setup()` and then any number of solver passes with either iterator, for
+every configuration, schedule and stream of well-shaped backend answers — every recorded row (the setup row and one per
+accepted step) satisfies the solute balance -/
+theorem runFromSetup_rowBal (c : Cfg α) (s : St α) (a0 : EvalAns α) (eq : List (Option (List α × List α))) (tf dtminS dtmaxS : α)
+    (steps : List (StepAns α)) (s' : St α) (m' : α) (hs : StReady c s) (ha : AnsShaped c s.ph.length a0)
+    (hsh : ∀ au ∈ steps, StepShaped c s.ph.length au)
+    (hz : ∀ yp ∈ (s.cur c.nElem).ph, yp.volFrac = 0 ∧ ∀ e, yp.fconc.getD e 0 = 0)
+    (hrest : ∀ y ∈ s.hist.tail, RowBal c y)
+    (h : runFromSetup c s a0 eq tf dtminS dtmaxS steps = some (s', m')) : ∀ y ∈ s'.hist, RowBal c y := by
+  obtain ⟨hr, hl⟩ := setupState_ready c s a0 eq hs ha
+  refine runSteps_rowBal c tf dtminS steps _ s' dtmaxS m' hr (by rw [hl]; exact hsh) ?_ h
+  obtain ⟨y, hy, _⟩ := setupState_hist c s a0 eq
+  intro y' hy'
+  rw [hy] at hy'
+  rcases List.mem_cons.mp hy' with h1 | h1
+  · have hcur : (setupState c s a0 eq).cur c.nElem = y' := by simp [St.cur, hy, h1]
+    rw [← hcur]; exact setupState_rowBal c s a0 eq hs ha hz
+  · exact hrest y' h1
+
+/-- and such a run never raises and ends ready for the next `solve` call -/
+theorem runFromSetup_total (c : Cfg α) (s : St α) (a0 : EvalAns α) (eq : List (Option (List α × List α))) (tf dtminS dtmaxS : α)
+    (steps : List (StepAns α)) (hs : StReady c s) (ha : AnsShaped c s.ph.length a0)
+    (hsh : ∀ au ∈ steps, StepShaped c s.ph.length au) :
+    ∃ r, runFromSetup c s a0 eq tf dtminS dtmaxS steps = some r := by
+  obtain ⟨hr, hl⟩ := setupState_ready c s a0 eq hs ha
+  exact runSteps_total c tf dtminS steps _ dtmaxS hr (by rw [hl]; exact hsh)
+
+
 /-! ### non-vacuity
 
 `GridGood` is satisfiable (the grid a `PopulationBalanceModel` is constructed with).  The hypothesis `… = some o` of the step
